@@ -16,21 +16,21 @@ PENDING = "check not built yet (implementation in progress); the design is in DE
 VPNOTE = 'Trusted: clang AST, the path engine, the fact language of sa/vp.py (what counts as a reducing producer / accepted test is listed there), buffer identity by carve expression; frozen per-function tables (point-validation level, accepted alternative forms) carry one reason each. Decides necessary structural conditions, not the numerical statements of the property.'
 CHECKS = {
  "C07": dict(level="other",
-   text="Resource-bound analysis of the scratch-stack convention the property names first: for each of the ~140 functions with a `stack` parameter and a _deep companion, the octets the body carves by pointer arithmetic plus the largest demand of any callee that receives the remaining stack (recursively; calls through ring/curve descriptors demand that object's ->deep; objects built inside the stack contribute their creator's sizes) is compared with the value of F_deep on a grid of dimension tuples; the 8 creators are checked the other way round (every installed function fits into ->deep and the public _deep covers it); blob.c's allocation expression covers header + payload for all sizes 1..4199; only mem.c/blob.c call the allocator. Found and fixed 20 under-declared _deep functions. Absence of every out-of-bounds access for all inputs, region sizes inside a carve and _keep formulas of flexible states are not decided.",
+   text="Resource-bound analysis of the scratch-stack convention the property names first: for each of the ~140 functions with a `stack` parameter and a _deep companion, the octets the body carves by pointer arithmetic plus the largest demand of any callee that receives the remaining stack (recursively; calls through ring/curve descriptors demand that object's ->deep; calls through constant function-pointer tables are followed to every entry; direct indexed accesses through stack pointers count as use; objects built inside the stack contribute their creator's sizes) is compared with the value of F_deep on a grid of dimension tuples; the 8 creators are checked the other way round (every installed function fits into ->deep and the public _deep covers it); blob.c's allocation expression covers header + payload for all sizes 1..4199; only mem.c/blob.c call the allocator. Found and fixed 20 under-declared _deep functions. Absence of every out-of-bounds access for all inputs, region sizes inside a carve and _keep formulas of flexible states are not decided.",
    design="4/C07", technique="resource-bound analysis: size formulas lifted from the AST and compared on a dimension grid",
-   note="Trusted: clang AST; the size evaluators of sa/sd.py (integer expressions only; data-dependent sizes replaced by their upper bound); formulas are monotone and piecewise linear with breakpoints inside the grid (n, m <= 12 quick / 40 thorough); three functions are frozen undecided (variadic ecAddMulA, priExtendPrime/2)."),
+   note="Trusted: clang AST; the size evaluators of sa/sd.py (integer expressions only; data-dependent sizes replaced by their upper bound); formulas are monotone and piecewise linear with breakpoints inside the grid (n, m in 1..12 incl. 11 quick / up to 40 thorough); three functions are frozen undecided (variadic ecAddMulA, priExtendPrime/2)."),
  "C14": dict(level="other",
    text="Information-flow analysis on the LLVM IR that clang 14 emits from the current tree (quick: -O2; thorough: -O1/-O2/-O3) for all 83 units: no conditional branch, switch or indirect branch condition depends on secret data in (G1) the 33 regular editions (discovered as the functions that also have a _fast twin), (G2) the nine verification steps, which must also compare through the regular memEq/memIsZero, and (G3) the ~75 entry points of the symmetric primitives; secrets are seeded only at entry points and the set of secret state fields (down to array sub-offsets) is inferred by a fixpoint. One compiler-specific finding (clang turns SAFE(memCmp)'s final mask into a branch) is listed as known; one genuine finding (branching carry of the secret CTR counter) was fixed. `SAFE equals FAST for all inputs' is a value statement and is declined.",
    design="4/C14", technique="taint / information-flow analysis on optimised LLVM IR with parametric function summaries",
    note="Trusted: clang's IR at the analysed levels (the x86 backend may still lower a select to a branch; other compilers, e.g. the gcc that built the baseline, are not covered), tools/irdump.cc, the memory abstraction of sa/ct.py (one cell per struct field and sub-offset, flow-insensitive), AST-derived state struct layouts; return values of proved regular editions are declassified; memWipe is opaque (it scans memory it has just overwritten)."),
  "C08": dict(level="other",
-   text="Relational abstract interpretation (linear inequalities, Fourier-Motzkin implication, bounded disjunction, widening) of the 24 DER/APDU leaf decoders: every read of the input is proved to lie inside the remaining length on all abstract states, every DER decoder returns SIZE_MAX or a consumed length <= its input (callee contracts used as facts and proved for the callees), the remaining length never wraps, no bool constant travels through the size_t error channel; plus a typestate over all of src/ that every result of a SIZE_MAX-channel function is examined before it is used as a length/offset. Termination, output-buffer bounds, canonicality and encode/decode inversion are not decided.",
-   design="4/C08", technique="abstract interpretation (polyhedra-lite domain) over the CFG + typestate on error-channel results",
-   note="Trusted: clang AST, the abstract domain of sa/db.py (size_t arithmetic modelled over the integers with explicit no-wrap obligations on remaining lengths; input octets unconstrained 0..255); string decoders (hex/b64/dec/oid) and composite parsers are covered only by the result-discipline rule."),
+   text="Relational abstract interpretation (linear inequalities, Fourier-Motzkin implication, bounded disjunction, template/interval join, widening) of the DER/APDU leaf decoders and of the container parsers built on them (oid.c, bpki.c, btok_cvc.c, bign_params.c, btok_sm.c; 40 functions): every read of the input is proved to lie inside the remaining length on all abstract states, every DER decoder and static container decoder returns SIZE_MAX or a consumed length <= its input (callee contracts used as facts and proved for the callees), the remaining length never wraps, no bool constant travels through the size_t error channel; arithmetic is machine arithmetic (a sum is a fact only when proved <= SIZE_MAX, a difference only when proved >= 0), which is what decides 'lengths near SIZE_MAX'. DB.4: a value decoder copying into a fixed-size object (struct field, local array) writes no more than it holds -- the probe-length-then-copy discipline of btokCVCBodyDec / bignParamsDec_internal. DB.2: typestate over all of src/ that every result of a SIZE_MAX-channel function is examined before use as a length/offset. DB.5: strchr membership tests exclude NUL. Found and fixed derDec (length overflow), derTDec, derTSIZEDec, derTPSTRDec; two further der.c defects (4-octet tags, truncated OID arcs) were found by reading and fixed. Termination, canonicality and encode/decode inversion are not decided.",
+   design="4/C08", technique="abstract interpretation (polyhedra-lite domain with wrap obligations) over the CFG + typestate on error-channel results",
+   note="Trusted: clang AST, the abstract domain of sa/db.py (64-bit size_t; input octets unconstrained 0..255; a caller-supplied (pointer, length) pair describes one object so length <= PTRDIFF_MAX; a failing der.c decoder writes nothing); destinations that are caller-supplied pointers and the string decoders hex/b64/dec are not covered by DB.1/DB.4."),
  "C11": dict(level="other",
-   text="The ordering mechanism behind overlap tolerance is decided on all paths: for each of the ~55 functions whose header remark allows buffers to overlap (instances parsed from belt.h/bash.h/brng.h/der.h/mem.h) and each ordered pair (P writable, Q), once P has been written Q is never read again, and an operation that reads Q and writes P at once is itself tolerant for those parameters (computed recursively from callee bodies with per-parameter read/write summaries; memmove tolerant, memcpy not). Found and fixed five documented-legal placements with wrong results. Output equality for every placement is a value statement; what is decided is the necessary ordering condition.",
+   text="The ordering mechanism behind overlap tolerance is decided on all paths: for each of the ~55 functions whose header remark allows buffers to overlap (instances parsed from belt.h/bash.h/brng.h/der.h/mem.h) and each ordered pair (P writable, Q), once P has been written Q is never read again, and an operation that reads Q and writes P at once is itself tolerant for those parameters (computed recursively from callee bodies with per-parameter read/write summaries; memmove tolerant, memcpy not). Found and fixed six documented-legal placements with wrong results. Output equality for every placement is a value statement; what is decided is the necessary ordering condition.",
    design="4/C11", technique="effect-ordering dataflow on all CFG paths with bottom-up read/write summaries",
-   note="Trusted: clang AST, effect summaries (prototype const-ness for bodiless callees), memMove/memJoin as tolerant primitives (memJoin's case analysis on pointer order is not followed; listed as frozen undecided), the header remarks as the specification."),
+   note="Trusted: clang AST, effect summaries (prototype const-ness for bodiless callees), memMove as tolerant primitive; memJoin's case analysis on pointer order is not followed by the general rule (frozen undecided) but each of its moves must be justified by a memIsDisjoint2 guard on its path (R11-guarded-moves); local pointers set through an out-parameter (derDec2(&v, .., der)) alias the call's other buffers; the header remarks are the specification."),
  "C10": dict(level="other",
    text="One clause of the property is decided, exactly: a state that belt.h/brng.h/botp.h declare copyable as a memory fragment never stores an address derived from the state itself, a local object or the scratch stack. Type inventory of all state structs of these families (a struct without pointer fields cannot break relocation) plus classification of every store into a pointer field by the origin of the stored address. Chunking equivalence and Get-then-continue quantify over values and are declined.",
    design="4/C10", technique="type inventory + points-to classification of stores (AST dataflow)",
@@ -43,13 +43,13 @@ CHECKS = {
    text="Must-call completeness on all paths: for 18 validators (parameter sets of bign/bign96/g12s/dstu/stb99/pfok, public keys, key pairs, points, curve validity and group safety, bels public keys, field validity) the multiset of sub-checks accepted on the way to every success return is recomputed and must contain the frozen set read off the reference tree (74 obligations incl. MOV thresholds and 'G has order q'); the six YYMMDD octets are digit-tested before arithmetic; priIsPrime's Rabin-Miller iteration count is at least B_PER_IMPOSSIBLE/2. That the primality / irreducibility / next-prime routines compute the right answer is number theory over all inputs and is declined.",
    design="4/C12", technique="must-pass-through (dominance on all CFG paths) against a frozen sub-check table", note=VPNOTE),
  "C17": dict(level="other",
-   text="Must-pass-through analysis on all paths of the CV-certificate functions (Val, Val2, Iss, Match, Unwrap, Check, Check2, Wrap): success only after unwrap under the issuer's key, signature verification whenever a key is given, authority == issuer holder, issuer.from <= cert.from <= issuer.until with the right operands, explicit date inside the validity period; secure messaging: the parity test on ctr[0] (truth table over all 256 octet values) refuses exactly one parity before any use of the session keys, Wrap/Unwrap of one direction agree, directions use opposite parities, decryption only after the MAC was accepted; key/share containers release content only after beltKWPUnwrap accepted. Parse-back equality and recovery of APDUs unchanged are value statements and are declined.",
+   text="Must-pass-through analysis on all paths of the CV-certificate functions (Val, Val2, Iss, Match, Unwrap, Check, Check2, Wrap): success only after unwrap under the issuer's key, signature verification whenever a key is given or the certificate's own key is requested (discharged with the field postcondition pubkey_len >= 48 that the decoder analysis derives for btokCVCBodyDec), authority == issuer holder, issuer.from <= cert.from <= issuer.until with the right operands, explicit date inside the validity period; secure messaging: the parity test on ctr[0] (truth table over all 256 octet values) refuses exactly one parity before any use of the session keys, Wrap/Unwrap of one direction agree, directions use opposite parities, decryption only after the MAC was accepted; key/share containers release content only after beltKWPUnwrap accepted. Parse-back equality and recovery of APDUs unchanged are value statements and are declined.",
    design="4/C17", technique="must-pass-through dataflow + exhaustive evaluation of the one-octet parity predicate", note=VPNOTE),
  "C04": dict(level="other",
    text="Validation-presence analysis on all paths of every bake (BMQV/BSTS/BPACE) and BAUTH step: received points pass both coordinate reductions and the on-curve test before any EC arithmetic; each verifying step succeeds only after its MAC / point comparison / certificate callback / component range test accepted, under the same kca/kcb flag as the step that produces the tag (checked over all four flag combinations); ephemeral scalars sampled modulo the order; drivers test every step's result; the state keys K0/K1/K2 are derived by an earlier step of the same party in every flag combination in which a later step reads them. Equality of the derived keys and rejection of every tampered run are value statements and are declined.",
    design="4/C04", technique="validation-presence dataflow + writer/reader agreement across protocol steps", note=VPNOTE),
  "C02": dict(level="other",
-   text="Validation-presence analysis on every path of the bign signing/verification/key-transport/IBS functions: secret scalars are sampled modulo the group order; a loaded private key passes 0<d<q before any use; every operand of a modular routine whose own ASSERT demands operand<modulus is provably reduced at the call (range test with failing arm leaving, reducing producer, conditional subtraction) -- which is exactly the 'hash values >= q' and 's1 range' clauses; decoded points are validated before EC arithmetic; every success return of a verifier/unwrap is dominated by its accepting comparisons. The numerical clauses (signature equals the standard's value, DH symmetry, round trips) are declined.",
+   text="Validation-presence analysis on every path of the bign signing/verification/key-transport/IBS functions: secret scalars are sampled modulo the group order; a loaded private key passes 0<d<q before any use; every operand of a modular routine whose own ASSERT demands operand<modulus is provably reduced at the call (range test with failing arm leaving, reducing producer, conditional subtraction) -- which is exactly the 'hash values >= q' and 's1 range' clauses; decoded points are validated before EC arithmetic; every success return of a verifier/unwrap is dominated by its accepting comparisons (for bignKeyUnwrap: the comparison selected by the header argument). The numerical clauses (signature equals the standard's value, DH symmetry, round trips) are declined.",
    design="4/C02", technique="validation-presence dataflow (must-pass-through on all CFG paths)", note=VPNOTE),
  "C16": dict(level="other",
    text="Same validation-presence templates as C02 applied to bign96.c, g12s.c, dstu.c, pfok.c: sampling modulus, private-key range before use (pfok's r-bit form accepted), operands of modular routines reduced, public keys reduced/validated, signature components non-zero and below the order, success of each verifier/validator dominated by its accepting comparisons. Completeness of sign-then-verify, compression round trip and key-agreement equality are value statements and are declined.",
